@@ -19,7 +19,7 @@ TECHNIQUE = ("property-based testing (Hypothesis): differential bulkwalk vs GETN
              "same generated agent, plus absolute set-exactness against the agent database, under "
              "generated conformant GETBULK truncation policies; small-scope enumeration in thorough")
 RULE = ("case = C01 database/roots x bulk size 1..50 (weighted to 1,2,3,n-1,n,n+1 of a subtree size) x "
-        "per-response truncation script (full / k rows / cut after k bindings / per-mille fraction / no "
+        "per-response truncation script (full / k rows / cut after k bindings / per-mille fraction / a fixed small limit of 1..5 bindings for the whole walk / no "
         "early stop) x v2c,v3 x raw/pythonic entry; non-trivial = (>=2 roots of different subtree size, or "
         "an empty subtree, or bulk size not dividing a subtree size, or a truncation fired) and >=2 "
         "instances below some root; distinct = SHA-1 of canonical JSON case")
@@ -118,7 +118,9 @@ def cases(draw, v3_weight=1, allow_subrow=True):
     sizes = [sum(1 for o in db if c01._below(o, tuple(r))) for r in w["roots"]]
     near = sorted({max(1, s + d) for s in sizes for d in (-1, 0, 1)})
     bulk = draw(st.one_of(st.sampled_from([1, 2, 3]), st.sampled_from(near), st.integers(1, 50)))
-    script = draw(st.one_of(st.just([]), st.lists(POLICY, min_size=1, max_size=8)))
+    script = draw(st.one_of(st.just([]), st.lists(POLICY, min_size=1, max_size=8),
+                            # an agent with a small fixed limit of bindings per response, for the whole walk
+                            st.integers(1, 5).map(lambda L: [["cut", L]] * 80)))
     w["bulk"] = bulk
     w["bulk_script"] = script
     w["early_stop"] = draw(st.sampled_from([True, True, True, False]))
